@@ -15,8 +15,12 @@ Import ListNotations.
 Open Scope Z_scope.
 
 (* ---------- small helpers (python list idioms) ---------- *)
+(* l[i] with python / numpy index semantics: a negative index counts from the end (l[-1] is the
+   last element); d stands for the IndexError outside [-len, len) *)
 Definition nthZ {A} (i : Z) (l : list A) (d : A) : A :=
-  if i <? 0 then d else nth (Z.to_nat i) l d.
+  if i <? 0
+  then (if - i <=? Z.of_nat (length l) then nth (length l - Z.to_nat (- i)) l d else d)
+  else nth (Z.to_nat i) l d.
 
 Definition zrange (n : Z) : list Z := map Z.of_nat (seq 0 (Z.to_nat n)).   (* arange(n) *)
 
@@ -130,21 +134,31 @@ Definition ag_getall (W : nat) (labels : list Z) : list Z :=
 Inductive pl_params :=
 | PLHard (pl : list Z)                                  (* 1-d table *)
 | PLSoft (am : list Z)                                  (* 2-d table, row argmax *)
-| PLThr (am : list Z) (above : list bool)               (* softmax(row)[argmax] > threshold, outcome per row *)
+| PLThr (am : list Z)                                   (* 2-d table with a threshold: row argmax, and the outcome of *)
+        (ref : list bool)                               (*   softmax(row).max() > threshold per row: as the rule says (float32) *)
+        (dec_item : list bool)                          (*   as the per-sample accessor decided it (recorded on that path) *)
+        (dec_bulk : list bool)                          (*   as the bulk accessor decided it (recorded on that path) *)
 | PLTopk (topk : list (list Z)) (choice : list Z).      (* row.topk(k) indices; drawn choice per sample *)
+
+(* `if pseudo_label_probs[argmax] > self.threshold: return argmax` / `return -1`, the float
+   comparison shipped as its outcome *)
+Definition thr_label (am : list Z) (dec : list bool) (idx : nat) : Z :=
+  if nth idx dec false then nth idx am 0 else -1.
 
 Definition pl_getitem (p : pl_params) (idx : nat) : Z :=
   match p with
   | PLHard pl => nth idx pl 0
   | PLSoft am => nth idx am 0
-  | PLThr am above => if nth idx above false then nth idx am 0 else -1
+  | PLThr am _ dec_item _ => thr_label am dec_item idx
   | PLTopk topk choice => nthZ (nth idx choice 0) (nth idx topk []) 0
   end.
 Definition pl_getall (p : pl_params) (n : nat) : option (list Z) :=
   match p with
   | PLHard pl => Some pl
   | PLSoft am => Some am
-  | PLThr _ _ => Some (map (fun idx => pl_getitem p idx) (seq 0 n))     (* D20 repair *)
+  (* D20 repair: `[self.getitem_class(idx) for idx in range(len(self))]` -- the bulk accessor evaluates
+     the threshold comparison again, for every row; its outcomes are recorded separately *)
+  | PLThr am _ _ dec_bulk => Some (map (thr_label am dec_bulk) (seq 0 n))
   | PLTopk _ _ => None                                                  (* raises NotImplementedError *)
   end.
 
@@ -239,7 +253,9 @@ Definition ls_getitem (sm : Q) (C y : Z) : enc :=
   else EVec (ls_vec sm C y).
 
 Definition oh_vec (C y : Z) : list Q := spike 1%Q 0%Q (Z.to_nat y) (Z.to_nat C).   (* one_hot(y, C).float() *)
-Definition oh_getitem (C y : Z) : enc := EVec (oh_vec C y).
+(* repaired (fixes/C16_onehot_unlabeled.patch): an unlabeled sample keeps the marker, as in ls_getitem *)
+Definition oh_getitem (C y : Z) : enc :=
+  if y =? -1 then EVec (repeat (-1)%Q (Z.to_nat C)) else EVec (oh_vec C y).
 
 Inductive espec := ESmooth (sm : Q) | EOneHot.
 Definition e_getitem (e : espec) (C : Z) (labels : list Z) (idx : nat) : enc :=
@@ -248,3 +264,16 @@ Definition e_getitem (e : espec) (C : Z) (labels : list Z) (idx : nat) : enc :=
   | EOneHot => oh_getitem C (nth idx labels 0)
   end.
 Definition e_getall (e : espec) (labels : list Z) : list Z := labels.     (* not overridden: delegated *)
+
+(* ---------- a wrapped dataset as a whole ---------- *)
+(* A dataset offers items by name: the label ("class") and any number of others (x, index, ...).
+   Every wrapper of this file derives from KDWrapper, whose __getattr__ forwards every accessor the
+   wrapper's own classes do not define to the wrapped dataset; the wrappers define the class
+   accessors only (checked structurally on the real classes by harness/c16.py:shadowed_accessors). *)
+Inductive item_name := IClass | IOther (name : nat).
+Definition dataset := item_name -> nat -> Z.        (* getitem_<item>(idx) *)
+Definition wrap (w : wspec) (C : Z) (labels : list Z) (ds : dataset) : dataset :=
+  fun it idx => match it with
+                | IClass => w_getitem w C labels idx
+                | IOther _ => ds it idx
+                end.
